@@ -29,6 +29,10 @@ CHECKS = {
    text="Deductive: PanopticaResult.__init__ (binarisation, global loop) and _calc_global_bin_metric are executed symbolically on symbolic label arrays with the edge-case configuration as symbolic enum values: global_bin_<m> is the set formula of the two foregrounds (Dice/IoU/RVD) or the metric called on exactly the two binarised arrays (ASSD/clDice), the statement's empty-side scenario value otherwise; metrics not requested are not set; caller arrays are not written. Counter-models replayed on the real class; bounded 2x2 enumeration.",
    note=TRUST_COMMON + "numpy model; ASSD/clDice bodies are C07/C06.",
    tech="contract-based deductive verification: symbolic execution with symbolic enum configuration and voxel-set theory, counter-model replay"),
+ "C09": dict(cat="proof", design="DESIGN.md 3 C09",
+   text="Deductive (machine integers): _calc_overlapping_labels is executed symbolically with numpy-1.26 promotion and modular casts for uint8/16/32/64 inputs and symbolic labels in [1,2^24): via a chain of lemma obligations (divisor range, label ranges, product bound, no wrap, Euclidean decode, above threshold) every listed pair is proved to overlap in a voxel, every overlapping pair to be listed, none twice; _map_labels is proved to return the per-voxel mapped label without wrap-around in a fresh buffer; _get_paired_crop hands the bounding-box routine an array that is non-zero exactly where either input is; _get_smallest_fitting_uint and _check_array_integrity are value-independent and correct. Refuted lemmas are replayed by searching an adversarial label family on the real functions; a bounded end-to-end run compares all metrics under injective relabelling/re-typing.",
+   note=TRUST_COMMON + "numpy promotion table and np.unique contract (npmodel.py); uint64 input goes through float64 in numpy 1.26 (exact below 2^53, A-FP); renaming-invariance of the spec itself (labels used only through equality) is by construction and composes with C01.",
+   tech="contract-based deductive verification: symbolic execution with machine-integer semantics, lemma chains in z3 (NIA), replay on adversarial label families"),
 }
 NA_REASON = "check not built yet (build in progress, see DESIGN.md section 7)"
 def main():
